@@ -10,7 +10,7 @@ pad flag, |.|<= rows, cone triples in list order, number of created variables, a
 and the weight vectors of all (recursive) `split` calls in call order.
 """
 import sys, os, json, subprocess, itertools
-sys.path.insert(0, '/repo')
+sys.path.insert(0, os.environ.get('RSOME_REPO', '/repo'))
 import numpy as np
 from rsome.lp import IPCone
 from rsome.gcp import Model
